@@ -133,7 +133,9 @@ IO_ASSUME = ["in-process cases call the real write::Builder / Array::read_npy / 
 PROPS.update({
     "C07": dict(
         theorems=["npy_roundtrip", "writeNpy_ok", "detect_npy", "reads_what_it_writes_npy", "text_header_roundtrip", "fmtFixed_token", "text_shape_tokens",
-                  "fmtFixed_error", "fmtRatFixed_parses", "text_value_roundtrip", "text_special_roundtrip", "literal_bound_witness", "detect_text", "reads_what_it_writes_text"],
+                  "fmtFixed_error", "fmtRatFixed_parses", "text_value_roundtrip", "text_special_roundtrip", "literal_bound_witness", "detect_text", "reads_what_it_writes_text",
+                  "nearest_error", "fifteen_digits_print_back", "text_npy_text"],
+        modules=["SfsModel.Props.C07", "SfsModel.Props.C07X"],
         nontrivial=r"^(npyrt-res\d+-d[2-9]|npyrt-.*special|textrt-p\d+-d[2-9]|fmt-fin|parse-|pipe-|t2n2t-|detect-[NT])",
         rule="220 (thorough 3000) random spectra with 1-6 axes over value classes {counts, negative dyadics, decimal ties, subnormals, huge, arbitrary bit patterns, NaN with several payloads, +-inf, +-0}: "
              "write npy -> bytes compared with writeNpy, read back compared with readNpy (bit patterns); write text at precision 0..17 -> bytes compared with writeText (i.e. `{:.p}` vs fmtFixed), "
@@ -142,7 +144,6 @@ PROPS.update({
              "40 (thorough 300) text -> npy -> text chains at equal precision (clause checked on the model for <= 15 significant digits); "
              "non-trivial = distinct request other than a 1-axis spectrum without special values, a non-finite single value or an undetected prefix",
         exhaustive=False, assumptions=IO_ASSUME,
-        correspondence_only=["text -> npy -> text reproduces the text when printed values have <= 15 significant digits (checked on the model for every generated case; no theorem)"],
     ),
     "C15": dict(
         theorems=["writer_layout", "writer_data_offset", "writer_error_iff", "writer_dict_parses", "grammar_accepts_numpy", "bar_is_little", "descr_accepted_iff",
